@@ -158,8 +158,8 @@ def is_deleted_guarded(prog, f, bb):
     return False
 
 
-def c05c(prog, R):
-    r = R.rule("C05.c", "nothing old is unlinked before the version without it is published", "O,W,K")
+def c05c(prog, R, rid="C05.c"):
+    r = R.rule(rid, "nothing old is unlinked before the version without it is published", "O,W,K")
     upgraders = MustSet(prog, [A.UPGRADE, A.UPGRADE_SEQNO], "upgrade*")
     marks = prog.all_calls(A.TABLE_MARK_DELETED, A.BLOB_MARK_DELETED)
     for mc in marks:
